@@ -40,6 +40,16 @@ TEMPLATES = [
     # every zone specifier format_has_zone() recognises makes the parse independent of the configured zone
     ('parse_timestamp!(.s, format: "%Y-%m-%d %H:%M:%S %#z")', {"s": "2021-03-04 05:06:07 +02"}, False),
     ('parse_timestamp!(.s, format: "%Y-%m-%d %H:%M:%S %#z")', {"s": "2021-03-04 05:06:07 -0930"}, False),
+    # offsets that coincide with the offset one of the swept zones has at that instant (Berlin +01, New York -05, Kolkata
+    # +05:30, St John's -03:30, Kiritimati +14): a format wrongly treated as zone-less then parses under that zone only
+    ('parse_timestamp!(.s, format: "%Y-%m-%d %H:%M:%S %#z")', {"s": "2021-03-04 05:06:07 +01"}, False),
+    ('parse_timestamp!(.s, format: "%Y-%m-%d %H:%M:%S %#z")', {"s": "2021-03-04 05:06:07 -05"}, False),
+    ('parse_timestamp!(.s, format: "%Y-%m-%d %H:%M:%S %#z")', {"s": "2021-03-04 05:06:07 +0530"}, False),
+    ('parse_timestamp!(.s, format: "%Y-%m-%d %H:%M:%S %z")', {"s": "2021-03-04 05:06:07 +0100"}, False),
+    ('parse_timestamp!(.s, format: "%Y-%m-%d %H:%M:%S %z")', {"s": "2021-03-04 05:06:07 -0330"}, False),
+    ('parse_timestamp!(.s, format: "%Y-%m-%dT%H:%M:%S%:z")', {"s": "2021-03-04T05:06:07+01:00"}, False),
+    ('parse_timestamp!(.s, format: "%Y-%m-%dT%H:%M:%S%:z")', {"s": "2021-03-04T05:06:07+14:00"}, False),
+    ('parse_timestamp!(.s, format: "%+")', {"s": "2021-03-04T05:06:07+05:30"}, False),
     ('to_unix_timestamp(parse_timestamp!(.s, format: "%d/%m/%Y %H:%M %#z"))', {"s": "10/07/2020 16:00 +09"}, False),
     ('parse_timestamp!(.s, format: "%Y-%m-%d %H:%M:%S %Z")', {"s": "2021-03-04 05:06:07 UTC"}, False),
     # an explicit timezone argument overrides the configured one; "" and "local" both name the system zone
